@@ -68,6 +68,21 @@ Stats(sgs, words) ==
    T |-> SumSeq([s \in DOMAIN sgs |-> SegT(sgs[s])]),
    n |-> [w \in words |-> SumSeq([s \in DOMAIN sgs |-> SegDf(sgs[s], w)])]]
 
+(* total_num_tokens of a segment produced by a MERGE (src/indexer/merger.rs,                    *)
+(* estimate_total_num_tokens): a source segment without deleted documents contributes its      *)
+(* stored value - the exact count when it was never merged; a source segment WITH deleted       *)
+(* documents contributes "an approximation by using the fieldnorm": the quantised lengths of    *)
+(* its living documents.  So without deletes the merged value is exact; with deletes it lies    *)
+(* between the quantised and the exact number of living tokens.  src = sequence of              *)
+(* [doc, alive] entries as in the state machine below.                                          *)
+QuantLen(tab, d) == tab[NormId(tab, DocLen(d)) + 1]
+LivingTokens(src) == SumSeq([i \in DOMAIN src |-> IF src[i].alive THEN DocLen(src[i].doc) ELSE 0])
+LivingQuantTokens(tab, src) == SumSeq([i \in DOMAIN src |-> IF src[i].alive THEN QuantLen(tab, src[i].doc) ELSE 0])
+HasDeletes(src) == \E i \in DOMAIN src : ~src[i].alive
+MergedTLower(tab, srcs) ==
+  SumSeq([k \in DOMAIN srcs |-> IF HasDeletes(srcs[k]) THEN LivingQuantTokens(tab, srcs[k]) ELSE LivingTokens(srcs[k])])
+MergedTUpper(srcs) == SumSeq([k \in DOMAIN srcs |-> LivingTokens(srcs[k])])
+
 -----------------------------------------------------------------------------
 (* queries:  [k |-> "term", w] | [k |-> "phrase", ws] | [k |-> "bool", cl |-> <<[o, q]..>>]     *)
 (*           [k |-> "boost", b, q] | [k |-> "const", c, q] | [k |-> "dismax", tie, qs]          *)
@@ -133,6 +148,14 @@ RECURSIVE HasDismax(_)
 HasDismax(t) == IF t.k \in {"bm25", "const"} THEN FALSE
                 ELSE t.k = "dismax" \/ \E i \in DOMAIN t.args : HasDismax(t.args[i])
 Boosted(t) == NumBoosts(t) > 0
+(* f32 addition and max are commutative, not associative: a sum / dis-max node over at most two *)
+(* matching clauses has one value whatever the order in which the scorers are visited; with    *)
+(* three or more the order decides the rounding, and the order depends on the content of the   *)
+(* segment (BufferedUnionScorer swap-removes exhausted scorers, Intersection sorts by cost,    *)
+(* block-WAND sorts by current document).                                                      *)
+RECURSIVE OrderFree(_)
+OrderFree(t) == IF t.k \in {"bm25", "const"} THEN TRUE
+                ELSE Len(t.args) <= 2 /\ \A i \in DOMAIN t.args : OrderFree(t.args[i])
 
 (* Rounding bound, in units in the last place of the result, between two f32 evaluations of the *)
 (* same term that differ in the order of the additions and in the place where a boost is        *)
@@ -238,6 +261,11 @@ ScoresUseSearcherStats ==
     LET d == segs[s][i].doc
         t == ScoreTerm(q, d, ScoringStats(s), <<>>, Fn(d))
     IN  IsSome(t) => TermStatsAre(t, SearcherStats)
+\* the documented estimate of a merge never exceeds the exact count, and is exact without deletes
+MergeEstimateBounds ==
+  \A s \in DOMAIN segs :
+    /\ MergedTLower(Table, <<segs[s]>>) <= MergedTUpper(<<segs[s]>>)
+    /\ (~HasDeletes(segs[s]) => MergedTLower(Table, <<segs[s]>>) = SegT([i \in DOMAIN segs[s] |-> segs[s][i].doc]))
 \* the binary search is the definition
 NormIdIsLargestNotAbove == \A len \in 0..(Table[Len(Table)] + 2) : NormId(Table, len) = NormIdSpec(Table, len)
 =============================================================================
